@@ -274,7 +274,11 @@ def run_churn(i):
         ovl = [[], ["overlap"], ["pipeline"], ["pipeline"]][(i // 2) % 4]
         if ovl == ["pipeline"]:
             rounds = min(rounds, 150)
-        r = core.run_retry([exe, str(rounds), str(k), str(nev)] + ovl, env=env, cwd=wd, timeout=300)
+        argv = [exe, str(rounds), str(k), str(nev)] + ovl
+        if i % 3 == 0:
+            # a low limit on open descriptors: what a finished thread held must have been given back
+            argv = ["sh", "-c", 'ulimit -n 96 && exec "$@"', "sh"] + argv
+        r = core.run_retry(argv, env=env, cwd=wd, timeout=300)
         if r.timeout:
             res["inconclusive"] = "churn driver timeout"; return res
         if tsan:
